@@ -79,8 +79,17 @@ def regenerate(ctx, probed=None):
     caps = [facts.get("cap_" + c, "?") for c in ("pendingReqCh", "finishedReqCh", "expiredCh", "unloadedCh")]
     capq = b(ok and all(c == "envconfigMaxQueue" for c in caps))
     arms = facts.get("unloadedChRecvArms", "0") if ok else "0"
+    eof = b(ok and facts.get("expiredOrderFixed") == "true")
+    idr = b(ok and facts.get("idleDrains") == "true")
+    uco = b(ok and facts.get("unloadClosesOnce") == "true")
+    m = re.search(r"^sendSites=(.*)$", p.stdout, re.M)
+    sites = []
+    for item in (m.group(1).split(",") if m and m.group(1) else []):
+        ch, _, locks = item.partition(":")
+        sites.append((ch, [x for x in locks.split("+") if x]))
+    lean_sites = "[" + ", ".join('("%s", [%s])' % (ch, ", ".join('"%s"' % x for x in locks)) for ch, locks in sites) + "]"
     body = ("-- REGENERATED on every run by vlib/checks/sched_common.py (harness/cmd/schedfacts + behavioural probe) from /repo's sched.go.\n"
-            "import OllamaVerif.Model.Sched\n"
+            "import OllamaVerif.Model.SchedChan\n"
             "namespace OllamaVerif.Generated.C01\n"
             "open OllamaVerif.Sched\n"
             f"/-- extractor output: {p.stdout.strip().replace(chr(10), '; ')[:700]} -/\n"
@@ -106,6 +115,14 @@ def regenerate(ctx, probed=None):
             f"def unloadedChRecvArms : Nat := {arms}\n"
             "/-- InitScheduler makes all four scheduler channels with capacity envconfig.MaxQueue() (the model's `maxQueue`) -/\n"
             f"def chanCapsAreMaxQueue : Bool := {capq}\n"
+            "/-- the parameters of the bounded model (Model/SchedChan.lean): ⟨the expired case takes loadedMu before refMu, the idle\n"
+            "    select of processPending receives from unloadedCh⟩ -/\n"
+            f"def treeCfg : OllamaVerif.SchedChan.Cfg := ⟨{eof}, {idr}⟩\n"
+            "/-- unload() calls Close() only where `llama != nil` is implied and sets llama = nil afterwards; no other Close() site\n"
+            "    except unloadAllRunners (shutdown): a second unload() of a runner is a no-op (the model's `if x.closed` in `cExp`) -/\n"
+            f"def unloadClosesOnce : Bool := {uco}\n"
+            "/-- every blocking send on a scheduler channel with the mutexes (textually) held there, as a sorted set -/\n"
+            f"def sendSites : List (String × List String) := {lean_sites}\n"
             "end OllamaVerif.Generated.C01\n")
     core.write_generated("OllamaVerif/Generated/C01_SchedFacts.lean", body)
     ctx.coverage["tree_variant"] = {"guardDelete": gd, "recheckGrant": rg, "expiredAtomic": ea,
@@ -113,6 +130,7 @@ def regenerate(ctx, probed=None):
                                     "waitUnloadPure": wup, "extractor_ok": ok, "guardDeleteAst": gda, "recheckGrantAst": rga,
                                     "decided_by": "probe+go/ast" if (gda, rga) == ("guarded", "present") else "probe (go/ast inconclusive)",
                                     "unloadedChRecvArms": arms, "chanCapsAreMaxQueue": capq,
+                                    "expiredOrderFixed": eof, "idleDrains": idr, "unloadClosesOnce": uco, "sendSites": [f"{c}:{'+'.join(l)}" for c, l in sites],
                                     "inlinedHelpers": facts.get("inlinedHelpers", "")}
     return "good" if (gd, rg) == ("true", "true") else "pinned" if (gd, rg) == ("false", "false") else None
 
@@ -252,8 +270,12 @@ def run_sched(ctx, prop, modules, theorems):
     if ctx.thorough:
         ctx.leanchecker(modules)
     ctx.assumptions += [
-        "model granularity: one atomic action per lock-protected region / channel operation; preemption inside a region, "
-        "lock-acquisition order (AB-BA) and channel capacities other than the pending queue's are outside the model",
+        "model granularity: one atomic action per lock-protected region / channel operation (pLookup merges the reads of `loaded` "
+        "and of the victims' refCounts); preemption inside a region is outside the model; channel capacities, sends under mutexes "
+        "and the loadedMu/refMu acquisition order are in the bounded layer (Model/SchedChan.lean), tied by go/ast facts, not by "
+        "trace conformance (traces on which the real scheduler wedges are excluded from L1 and reported by the deadlock monitors)",
+        "variant of the model (guardDelete, recheckGrant) = behaviour of the real scheduler on 6 witness schedules AND no unguarded "
+        "delete / missing re-check found by go/ast; a guard weakened in a way neither sees is left to trace conformance and monitors",
         "conformance relation: trace inclusion (every observed quiescent observation is reachable in the model); while a load "
         "is in flight the real scheduler may be parked on a mutex, so non-quiescent model states are admitted then",
         "fake time (testing/synctest), scripted LlamaServer mocks, cpu / single-metal GPU lists (no VRAM-recovery polling)",
